@@ -5,6 +5,7 @@ import (
 	"fmt"
 	"math/big"
 	"math/rand"
+	"regexp"
 	"strings"
 	"time"
 
@@ -164,6 +165,12 @@ func (w *World) emit(ev string, args Rec, res PhaseResult) Rec {
 	}
 	if !res.Ok {
 		rec["err"] = errClass(res.Err)
+		if m := shortfallRe.FindStringSubmatch(res.Err); m != nil {
+			// the bank's own words: what the paying account has and what the payment needs
+			have, _ := sdkmath.NewIntFromString(m[1])
+			need, _ := sdkmath.NewIntFromString(m[2])
+			rec["have"], rec["need"] = NumInt(have), NumInt(need)
+		}
 		if res.Panic {
 			rec["panic"] = true
 			rec["panickind"] = panicKind(res.Err)
@@ -189,6 +196,8 @@ func panicKind(s string) string {
 	}
 	return "other"
 }
+
+var shortfallRe = regexp.MustCompile(`spendable balance (\d+)loya is smaller than (\d+)loya`)
 
 func firstLines(s string, n int) string {
 	l := strings.Split(s, "\n")
